@@ -8,8 +8,9 @@
    C15_load_consistent, C15_rejected_never_persisted.
    FULL over all crash-sequential runs (at most one live node at a time; every crash point of every operation of
    every operation sequence): C15_registry_ownership_sequential, C15_version_linkage_sequential,
-   C15_no_invalid_marker_sequential, C15_acked_visible_sequential (the "acknowledged => in the store" half of
-   acked_not_lost), C15_rejected_no_change_clean.
+   C15_no_invalid_marker_sequential, C15_acked_visible_sequential + C15_acked_not_lost_sequential (an acknowledged
+   change is in the store and later operations on other databases / loads never touch it),
+   C15_rejected_no_change_clean, C15_never_stuck_sequential (the proved part of progress_after_crash).
    PARTIAL / not proved: acked_not_lost under races (refuted for a creator stalled longer than the retry
    timeout), progress_after_crash (refuted: left-over in-flight markers block unrelated creates); both are
    monitored on the implementation by the harness. *)
@@ -108,6 +109,23 @@ Theorem C15_acked_visible_sequential : forall ops evs nd,
 Proof. exact acked_seq. Qed.
 Print Assumptions C15_acked_visible_sequential.
 
+(* ... and it stays: once a database is steady (registry entry and config document agree -- in particular after
+   an acknowledged create or update), every later node of a crash-sequential run that does not target that
+   database (creates / updates / deletes of other databases, completed or crashed at any storage call, and any
+   GetDatabaseConfigs with its roll-backs) leaves its registry entry and config document exactly as they are *)
+Theorem C15_acked_not_lost_sequential : forall ops evs1 evs2 d,
+  sequential (evs1 ++ evs2) ->
+  steady (w_st (run ops evs1)) d ->
+  (forall i o, steps_of evs2 i -> nth_error ops i = Some o -> is_load o = true \/ d <> op_db o) ->
+  same_db (w_st (run ops evs1)) (w_st (run ops (evs1 ++ evs2))) d.
+Proof. exact steady_stable_seq. Qed.
+Print Assumptions C15_acked_not_lost_sequential.
+
+Theorem C15_acked_is_steady : forall o st,
+  acked_state o st -> is_load o = false -> (forall d, o <> ODelete d) -> steady st (op_db o).
+Proof. exact acked_steady. Qed.
+Print Assumptions C15_acked_is_steady.
+
 (* not proved: an acknowledged create is never lost to a concurrent roll-back -- REFUTED under adversarial timers
    (C15_Refuted.acked_create_lost) *)
 Definition C15_acked_not_lost_full_statement : Prop :=
@@ -115,6 +133,16 @@ Definition C15_acked_not_lost_full_statement : Prop :=
     nth_error (w_nodes (run ops evs)) i = Some nd -> n_op nd = OInsert d dig cols -> result_of nd = Some ROk ->
     (forall o, In o ops -> o = OInsert d dig cols \/ o = OLoad) ->
     aget (regc (w_st (run ops evs))) d <> None.
+
+(* progress_after_crash, PARTIAL: in a crash-sequential run no operation of any node ever fails with one of the
+   errors that denote a state nothing can repair -- the config document newer than the registry
+   (ErrConfigVersionMismatch), "rollback cancelled", registry entry missing during a roll-back.  (Together with
+   version_linkage: after an interrupted change every later create / update / delete / load finds a state it can
+   roll back or forward.)  Not proved: that it then SUCCEEDS -- see the refuted full statement below. *)
+Theorem C15_never_stuck_sequential : forall ops evs i nd e,
+  sequential evs -> nth_error (w_nodes (run ops evs)) i = Some nd -> n_pc nd = PDone (RErr e) -> stuck e = false.
+Proof. exact no_stuck_seq. Qed.
+Print Assumptions C15_never_stuck_sequential.
 
 (* not proved: after an interrupted change and a completed GetDatabaseConfigs, a create whose collections no live
    database owns succeeds -- REFUTED (C15_Refuted.progress_blocked_by_stale_previous / _by_stale_deleted) *)
